@@ -1,6 +1,7 @@
 package rules
 
 import (
+	"go/token"
 	"fmt"
 	"go/types"
 	"regexp"
@@ -692,7 +693,8 @@ func ruleViz(rule string) RuleFn {
 			}
 		}
 		c.Floor(rule, "non-constant Fprintf arguments in visualize*", nArgs, 15)
-		// T-html
+		// T-html (taint): every piece of run-time text that reaches the string returned by an Attributes()
+		// method - through Sprintf arguments, concatenation, merges - went through html.EscapeString
 		nH := 0
 		for _, nm := range []string{"(*dig/internal/dot.Result).Attributes", "(*dig/internal/dot.Group).Attributes"} {
 			fn := c.P.Func(nm)
@@ -701,20 +703,73 @@ func ruleViz(rule string) RuleFn {
 				continue
 			}
 			c.See(fn)
-			for _, k := range an.CallsNamed(fn, "fmt.Sprintf") {
-				f := constFmt(k)
-				if !strings.Contains(f, "label=<") {
-					continue
+			seen := map[ssa.Value]bool{}
+			var leaves []ssa.Value
+			var walk func(v ssa.Value)
+			walk = func(v ssa.Value) {
+				v = an.Resolve(v)
+				if seen[v] {
+					return
 				}
-				for i, v := range varargs(k) {
-					nH++
-					s := an.Norm(v)
-					good := strings.HasPrefix(s, "iface(html.EscapeString(")
-					c.Check(good, rule, fmt.Sprintf("T-html: %s: argument %d of HTML label format %q is escaped", nm, i, f), s, "the text "+s+" is placed inside an HTML-like label (label=<...>) without html.EscapeString: a type such as <-chan int or a name containing <, > or & yields DOT that Graphviz rejects", k, nil)
+				seen[v] = true
+				switch x := v.(type) {
+				case *ssa.Const:
+					return
+				case *ssa.MakeInterface:
+					walk(x.X)
+				case *ssa.ChangeType:
+					walk(x.X)
+				case *ssa.Convert:
+					walk(x.X)
+				case *ssa.Phi:
+					for _, e := range x.Edges {
+						walk(e)
+					}
+				case *ssa.BinOp:
+					if x.Op == token.ADD {
+						walk(x.X)
+						walk(x.Y)
+						return
+					}
+					leaves = append(leaves, v)
+				case *ssa.Call:
+					switch cn := an.CalleeName(x); {
+					case cn == "html.EscapeString":
+						nH++
+						return
+					case strings.HasSuffix(cn, "ErrorType).Color"):
+						return
+					case cn == "fmt.Sprintf" || cn == "fmt.Sprint":
+						if cn == "fmt.Sprintf" {
+							walk(x.Common().Args[0])
+						}
+						for _, a := range varargs(x) {
+							walk(a)
+						}
+					default:
+						leaves = append(leaves, v)
+					}
+				default:
+					leaves = append(leaves, v)
 				}
 			}
+			an.Instrs(fn, func(in ssa.Instruction) {
+				if r, ok := in.(*ssa.Return); ok {
+					walk(r.Results[0])
+				}
+			})
+			if len(leaves) == 0 {
+				c.OKAt(rule, "T-html: every run-time text in the string returned by "+nm+" is HTML-escaped", "all data leaves are html.EscapeString(...) results or constants", c.P.Pos(fn.Pos()))
+			}
+			for _, l := range leaves {
+				var at ssa.Instruction
+				if in, ok := l.(ssa.Instruction); ok {
+					at = in
+				}
+				c.Bad(rule, "T-html: every run-time text in the string returned by "+nm+" is HTML-escaped", "the text "+an.Norm(l)+" reaches the HTML-like label (label=<...>) without html.EscapeString: a type such as <-chan int or a name containing <, > or & yields DOT that Graphviz rejects", at, nil)
+			}
 		}
-		c.Floor(rule, "arguments of HTML-label formats", nH, 6)
+		c.Floor(rule, "html.EscapeString results flowing into Attributes()", nH, 2)
 		// dashed <=> optional
 		if fn := c.Fn(rule, "dig.visualizeCtor"); fn != nil {
 			good := false
